@@ -117,6 +117,10 @@ pub fn record_c04(args: &Args, mut out: Out) -> usize {
         c.to = (48, 49);
         cfgs.push(c);
     }
+    // a player without hands: the unscoped run is empty, so every scoped run must be empty too
+    let mut empty = suite.clone();
+    empty.ranges[1] = vec![];
+    cfgs.push(empty);
     for (ci, cfg) in cfgs.iter().enumerate() {
         let refline = match full_event(cfg, &mut out) {
             Some(l) => l,
